@@ -415,8 +415,32 @@ def run_check_locked(pid, tier, seed, replay=None, n_override=None):
     # harnesses run a few at a time (VERIF_HARNESS_JOBS, default 3): each is a separate go test process
     # writing into its own directory; results are merged in the order of the config
     def one_harness(hi, h):
+        r = one_harness_once(hi, h, "")
+        # a harness that drives the code in REAL time (price-table timers, lock waits) can be disturbed by a
+        # loaded machine: when such an entry ("realtime": true) alarms, it is run once more with the same seed
+        # and only what BOTH runs report counts (a defect of deterministic code reproduces, a scheduling
+        # artefact does not); the first run's findings are kept in the log
+        if h.get("realtime") and not replay and (r["broken"] or r["mism"] or [x for x in r["hits"] if x["sig"] not in known_sigs_early]):
+            r2 = one_harness_once(hi, h, "-again")
+            note = "realtime harness %s alarmed (hits %s, diverging shards %d, broken %d) and was run again: second run hits %s, diverging shards %d, broken %d" % (
+                h["run"], sorted({x["sig"] for x in r["hits"]}), len(r["mism"]), len(r["broken"]),
+                sorted({x["sig"] for x in r2["hits"]}), len(r2["mism"]), len(r2["broken"]))
+            print("NOTE: " + note)
+            sig2 = {x["sig"] for x in r2["hits"]}
+            r2["hits"] = [x for x in r2["hits"] if x["sig"] in known_sigs_early or x["sig"] in {y["sig"] for y in r["hits"]}]
+            if not r["mism"]:
+                r2["mism"] = []
+            if not r["broken"]:
+                r2["broken"] = []
+            r2["log"] = r["log"] + [note] + r2["log"]
+            return r2
+        return r
+
+    known_sigs_early = {k["sig"] for k in load_known() if k["property"] == pid}
+
+    def one_harness_once(hi, h, suffix):
         r = dict(hi=hi, broken=[], stats=None, hits=[], nf=0, mism=[], log=[])
-        hdir = os.path.join(out_root, "h%d" % hi)
+        hdir = os.path.join(out_root, "h%d%s" % (hi, suffix))
         rc, out = run_harness(h, tier, seed, hdir, r["log"], n_override, only_case)
         if rc != 0:
             # a failing harness run is a broken tie unless monitors explain it
